@@ -453,8 +453,16 @@ def gen(desc):
             rng.shuffle(order)
             order = order[:rng.randint(2, nv)]
             ops = []
-            for i in order:
-                ops.append(["reg", i])
+            k = 0
+            while k < len(order):
+                if rng.random() < 0.25 and k + 1 < len(order):
+                    # another registry (a plugin's) is merged in: Registry.__add__
+                    m = rng.randint(1, min(3, len(order) - k))
+                    ops.append(["merge", order[k:k + m]])
+                    k += m
+                else:
+                    ops.append(["reg", order[k]])
+                    k += 1
                 for _ in range(rng.choice([0, 1, 1, 2])):
                     ops.append(["match", rng.choice(pool)])
             ops.append(["match", rng.choice(pool)])
@@ -585,6 +593,9 @@ def impl(case):
             if op == "reg":
                 reg.register(R["vendors"][x][1])
                 done.append(x)
+            elif op == "merge":
+                reg.__add__(_fresh_registry([R["vendors"][i][1] for i in x]))
+                done = list(x) + done          # dict(**other.vendors, **self.vendors)
             else:
                 served.append(_registry_match(reg, HardwareView(x, "")))
                 fresh.append(_registry_match(_fresh_registry([R["vendors"][i][1] for i in done]), HardwareView(x, "")))
@@ -847,6 +858,8 @@ def requests(case):
         for op, x in case["ops"]:
             if op == "reg":
                 done.append(x)
+            elif op == "merge":
+                done = list(x) + done
             else:
                 truep = [p for (s_, p) in R["db"] if R["prepared"][tuple(s_)].search(x)]
                 rq.append(dict(op="c18.hw", db=R["db"], true=sorted(set(truep)), exprs=[],
